@@ -377,8 +377,15 @@ def v6(F, res, rule6="V6", rule7="V7"):
     ag0 = F.fn("glas::server::Server::assemble_graph")
     # a predicate of the server module that the decision was factored into (`is_fetched_package_root(&Path)`) is part of it
     from lib import inline as _IL
-    ag = _IL.inlined(F, ag0, want=lambda p_: p_.startswith("glas::server::") and p_ != ag0.path and "{closure" not in p_ and
-                     not p_.startswith("glas::server::Server::"), depth=1)
+    # .. a free function or an associated function of the server without a receiver that answers bool (`Self::is_fetched_package_root(&Path)`)
+    def _pred(p_):
+        if not p_.startswith("glas::server::") or p_ == ag0.path or "{closure" in p_:
+            return False
+        if not p_.startswith("glas::server::Server::"):
+            return True
+        g_ = F.fns.get(p_)
+        return g_ is not None and str(g_.local_ty(0)) == "bool" and g_.d.get("arg_count") == 1 and "Path" in str(g_.local_ty(1))
+    ag = _IL.inlined(F, ag0, want=_pred, depth=1)
     d = FL.Defs(ag)
     adds = [(b, t) for b, t in ag.calls() if FL.short(callee(t) or callee_def(t)) == "PackageGraph::add_package"]
     if not adds:
